@@ -113,6 +113,47 @@ pub assume_specification[String::into_bytes](s: String) -> (r: Vec<u8>)
 //@|         exists|s: String, t: String| str_bytes(s) == raw.response.body@ && f.ensures((s,), t) && r.body@ == str_bytes(t),
 //@end
 
+// ---- the JSON wrapper (endpoints.rs:266): closure passed to apply_to_body, annotated by rule R9 ---------------------------
+// [trusted:stand-in] serde_json::{Value, from_str, Value::to_string}: parsing and printing are uninterpreted FUNCTIONS of their
+// argument (so the output depends on the text only through the parsed value); their insensitivity to whitespace / member order
+// and the canonical form of to_string are properties of serde_json, not decided here
+mod serde_json {
+    use vstd::prelude::*;
+    pub struct Value { pub id: u64 }
+    pub struct Error { pub code: u8 }
+    pub uninterp spec fn parse_spec(text: String) -> Option<Value>;
+    pub uninterp spec fn print_spec(v: Value) -> String;
+    #[verifier::external_body]
+    pub fn from_str(text: &String) -> (r: Result<Value, Error>)
+        ensures r.is_ok() <==> parse_spec(*text).is_some(), r matches Ok(v) ==> parse_spec(*text) == Some(v),
+    { unimplemented!() }
+    impl Value {
+        #[verifier::external_body]
+        pub fn to_string(&self) -> (r: String) ensures r == print_spec(*self) { unimplemented!() }
+    }
+}
+// [trusted:axioms] the empty string has no bytes
+#[verifier::external_body]
+proof fn axiom_empty_string_bytes()
+    ensures forall|s: String| s@.len() == 0 ==> (#[trigger] str_bytes(s)).len() == 0,
+{}
+
+//@extract file=watchdog/src/endpoints.rs item="fn apply_to_body_json" props=C18
+//@ ret r
+//@ rewrite R9 "\|text\| match serde_json::from_str\(&text\) \{" => "|text: String| -> (out: String) requires forall|v: serde_json::Value| f.requires((v,)), ensures (serde_json::parse_spec(text) matches Some(v) && exists|w: serde_json::Value| f.ensures((v,), w) && out == serde_json::print_spec(w)) || (serde_json::parse_spec(text).is_none() && out@.len() == 0), { match serde_json::from_str(&text) {"
+//@ rewrite R9 "\}\)\s*\}$" => "} }) }"
+//@ before "apply_to_body(raw,"
+//@| proof { axiom_empty_string_bytes(); }
+//@ spec
+//@| requires forall|v: serde_json::Value| f.requires((v,)),
+//@| ensures
+//@|     r.headers@.len() == 0,
+//@|     r.status == raw.response.status,
+//@|     // body: empty, or the printed form of what the extractor made of the parsed body
+//@|     r.body@.len() == 0 || exists|s: String, v: serde_json::Value, w: serde_json::Value|
+//@|         str_bytes(s) == raw.response.body@ && serde_json::parse_spec(s) == Some(v) && f.ensures((v,), w) && r.body@ == str_bytes(serde_json::print_spec(w)),
+//@end
+
 proof fn vp_canary_axioms()
     ensures false,
 {}
